@@ -1,6 +1,9 @@
 import PgFdr.Json
+import PgFdr.Driver.C07Stream
 namespace PgFdr.Driver
 open Lean PgFdr
-/-- protocol handlers of property C14: (op name, handler) -/
-def handlersC14 : List (String × (Json → R Json)) := []
+/-- protocol handlers of property C14: (op name, handler).  C14 has no op of its own (its model is C02's, op
+    `compete`); the list carries the `cli_stream` op of C07 (`Driver/C07Stream.lean`), which cannot be registered
+    through `Driver/C07.lean` because `Driver/Cli.lean` imports that file. -/
+def handlersC14 : List (String × (Json → R Json)) := handlersC07Stream
 end PgFdr.Driver
